@@ -418,6 +418,18 @@ example :
     ((witness3.script 0 [] 1 2).step Variant.fixed id .shutIdle).1.cur.success = [0, 1, 2] ∧
     ((witness3.script 0 [] 1 2).step Variant.fixed id .shutIdle).1.mainErrs = [.other] := by decide +kernel
 
+-- a shutdown notice right behind an account's success while the reconnect is still re-subscribing (`okShut`): the
+-- reader closes the new stream and marks the reconnect dirty; at the last account the reconnect simply starts over,
+-- at an earlier one the remaining accounts first set up another stream; either way everything ends subscribed once.
+-- A reconnect that stopped as soon as an attempt returned nil would leave the closed stream (first component).
+example :
+    ((witness3.script 0 [.ok, .ok, .okShut]).reconnectOnce Variant.fixed id (hsLevel Variant.fixed id 3)).1.isOpen = false ∧
+    ((witness3.script 0 [.ok, .ok, .okShut]).step Variant.fixed id .errIdle).1.cur.success = [0, 1, 2] ∧
+    ((witness3.script 0 [.ok, .ok, .okShut]).step Variant.fixed id .errIdle).1.streams.length = 3 ∧
+    ((witness3.script 0 [.okShut, .ok, .ok]).step Variant.fixed id .shutIdle).1.cur.success = [0, 1, 2] ∧
+    ((witness3.script 0 [.okShut, .ok, .ok]).step Variant.fixed id .shutIdle).1.streams.length = 4 := by
+  decide +kernel
+
 theorem C18_each_repair_needed :
     ((witness3.script 0 [.errBC]).step ⟨true, false, true, true⟩ id (.sub 3)).1.cur.alive = false ∧
     ((witness3.script 0 [.ok, .reject]).step ⟨false, true, true, true⟩ id .errIdle).1.accts = [0, 1] ∧
